@@ -12,6 +12,8 @@ import (
 	"encoding/json"
 	"fmt"
 	"os"
+	"sync"
+	"time"
 
 	"github.com/zeromicro/go-zero/core/mathx"
 )
@@ -113,8 +115,79 @@ func (w *VerifWriter) Close() {
 	w.f.Close()
 }
 
+// context modes of a wrapper call (third field of a call)
+const (
+	VCLive             = 0 // live from entry to return
+	VCDone             = 1 // cancelled before the call
+	VCCancelAtReturn   = 2 // live at entry, cancelled while the downstream runs
+	VCDeadlineAtReturn = 3 // live at entry, its deadline passes while the downstream runs
+	VCExpired          = 4 // past its deadline before the call
+)
+
+// verifCtx is a controller-driven context: it is done exactly when the executor says so (no
+// timer, no dependence on the load of the machine) and reports context.DeadlineExceeded with a
+// deadline that has passed, like a context.WithDeadline whose time has come.
+type verifCtx struct {
+	context.Context
+	mu   sync.Mutex
+	done chan struct{}
+	err  error
+	dl   time.Time
+}
+
+func (c *verifCtx) Done() <-chan struct{} { return c.done }
+
+func (c *verifCtx) Err() error {
+	c.mu.Lock()
+	defer c.mu.Unlock()
+	return c.err
+}
+
+func (c *verifCtx) Deadline() (time.Time, bool) {
+	c.mu.Lock()
+	defer c.mu.Unlock()
+	return c.dl, true
+}
+
+func (c *verifCtx) expire() {
+	c.mu.Lock()
+	defer c.mu.Unlock()
+	if c.err == nil {
+		c.err = context.DeadlineExceeded
+		c.dl = time.Now().Add(-time.Millisecond)
+		close(c.done)
+	}
+}
+
+// VerifCtx returns the context of a call in the given mode and the function the downstream has
+// to call just before it returns (it makes the context done in the modes "... at return").
+func VerifCtx(mode int64) (context.Context, func()) {
+	switch mode {
+	case VCDone:
+		ctx, cancel := context.WithCancel(context.Background())
+		cancel()
+		return ctx, func() {}
+	case VCCancelAtReturn:
+		ctx, cancel := context.WithCancel(context.Background())
+		return ctx, cancel
+	case VCDeadlineAtReturn, VCExpired:
+		c := &verifCtx{Context: context.Background(), done: make(chan struct{}), dl: time.Now().Add(time.Hour)}
+		if mode == VCExpired {
+			c.expire()
+			return c, func() {}
+		}
+		return c, c.expire
+	}
+	return context.Background(), func() {}
+}
+
+// VerifIsCtxErr: the error of a context that was done before the call.
+func VerifIsCtxErr(err error) bool {
+	return err == context.Canceled || err == context.DeadlineExceeded
+}
+
 // VerifWCase is a wrapper case: a list of independent calls
-// [kind, reject, ctxdone, downstream class, grpc code].
+// [kind, reject, context mode, downstream class, grpc code].
 type VerifWCase struct {
 	ID    int       `json:"id"`
 	Calls [][]int64 `json:"wcalls"`
